@@ -54,6 +54,8 @@ var callKinds = []callKind{
 	{name: "large-ok-edit", copy: true, large: true, edit: true},
 	{name: "small-ok-then-deserialize-into-it", copy: true, deser: true},
 	{name: "sync-3-buffers-s2fail-early", copy: true, fail: "s2dense"},
+	{name: "small-unbalanced", copy: true, fail: "unbalanced"},              // ends in a closing bracket with one scope still open:
+	{name: "large-unbalanced", copy: true, large: true, fail: "unbalanced"}, // stage 1 accepts, stage 2 runs out of indexes
 	{name: "small-ok-default-options", copy: true, defaultOpts: true},
 	{name: "large-ok-default-options", copy: true, large: true, defaultOpts: true},
 }
@@ -91,6 +93,11 @@ func buildCall(r *rand.Rand, k callKind, flush, slots int) builtCall {
 			return pipe.BuildDocMin(r, structurals, structurals-flush/3, false, minLen)
 		}
 		return pipe.BuildDocMin(r, structurals, -1, false, minLen)
+	}
+	if k.fail == "unbalanced" {
+		d := pipe.BuildDocMin(r, structurals, -1, false, minLen)
+		bc.text = append([]byte("["), d.Text...)
+		return bc
 	}
 	if !k.nd {
 		d := mk()
